@@ -1268,6 +1268,12 @@ impl<'a> Visitor<'a, '_, Error> for JSONValidator<'a> {
       return self.validate_array_items(&ArrayItemToken::Range(lower, upper, is_inclusive));
     }
 
+    let cddl = self.state.cddl;
+    let (lower, upper) = (
+      resolve_range_operand(cddl, lower),
+      resolve_range_operand(cddl, upper),
+    );
+
     match (lower, upper) {
       (Type2::IntValue { value: l, .. }, Type2::IntValue { value: u, .. }) => {
         let error_str = if is_inclusive {
@@ -1460,6 +1466,11 @@ impl<'a> Visitor<'a, '_, Error> for JSONValidator<'a> {
     ctrl: ControlOperator,
     controller: &Type2<'a>,
   ) -> visitor::Result<Error> {
+    let (target, controller) = (
+      strip_operand_parens(target),
+      strip_operand_parens(controller),
+    );
+
     if let Type2::Typename {
       ident: target_ident,
       ..
